@@ -107,6 +107,23 @@ def run(tier):
                    functions=['quantum.gates.Scalar.dagger'], what='dagger of a scalar is its conjugate')
     suite.identity('scalar.real.dagger_eval', eval_matrix(scalar(a).dagger()), [[a]], extra=(a,),
                    functions=['quantum.gates.Scalar.dagger'])
+    # user-defined gates on two and three qubits whose matrix changes when the qubit order is reversed: the dagger of the
+    # box, and of circuits containing it, evaluates to the conjugate transpose
+    from discopy.quantum.gates import QuantumGate
+    U2 = QuantumGate('U2', 2, [1, 0, 0, 0, 0, 0, 1j, 0, 0, 0, 0, 1, 0, -1, 0, 0])
+    U3 = QuantumGate('U3', 3, [0, 1, 0, 0, 0, 0, 0, 0,  1j, 0, 0, 0, 0, 0, 0, 0,  0, 0, 0, 1, 0, 0, 0, 0,  0, 0, 1, 0, 0, 0, 0, 0,
+                               0, 0, 0, 0, 0, 0, 1, 0,  0, 0, 0, 0, 1, 0, 0, 0,  0, 0, 0, 0, 0, 0, 0, -1j,  0, 0, 0, 0, 0, 1, 0, 0])
+    for nm, circ in (('U2', circuit.Id(2) >> U2), ('U2.dagger()', circuit.Id(2) >> U2.dagger()), ('U3.dagger()', circuit.Id(3) >> U3.dagger()),
+                     ('H@Id>>U2.dagger()>>CX', gates.H @ circuit.Id(1) >> U2.dagger() >> gates.CX),
+                     ('U2>>U2.dagger()', U2 >> U2.dagger())):
+        suite.identity('user_gate[%s].dagger' % nm, eval_matrix(circ.dagger()), dagger_of(eval_matrix(circ)),
+                       functions=['cat.Arrow.dagger', 'tensor.Tensor.dagger', 'tensor.Functor.__call__'],
+                       what='the dagger of a circuit with a user-defined multi-qubit gate evaluates to the conjugate transpose')
+    suite.identity('user_gate[U2.dagger()].matrix', eval_matrix(circuit.Id(2) >> U2.dagger()),
+                   dagger_of([[U2.array.reshape(4, 4).T[r][c] for c in range(4)] for r in range(4)]),
+                   functions=['tensor.Tensor.dagger'], what='U.dagger() evaluates to the conjugate transpose of the matrix of U')
+    suite.identity('user_gate[U2>>U2.dagger()].identity', eval_matrix(U2 >> U2.dagger()), mat_list(sympy.eye(4)),
+                   functions=['tensor.Tensor.dagger'])
     # square roots: sqrt(v) evaluates to a square root of v and its dagger to the conjugate of that number
     for v in (2, -2, 2j, -1 + 1j):
         with suite.guard('sqrt(%s)' % (v,), ['quantum.gates.Sqrt']):
